@@ -14,6 +14,8 @@ open GV.ForkJoin
 #print axioms C18_tiled_kernel_deterministic
 #print axioms C18_tiled_kernel_value
 #print axioms C18_execute_kernel
+#print axioms C18_shared_scratch_not_independent
+#print axioms C18_shared_scratch_race
 #print axioms C18_once_atomic
 #print axioms C18_once_invariant
 #print axioms C18_once_all_observe_same
